@@ -20,7 +20,7 @@ META = {
     "explanation": "Engine G lists every unwrap/expect/index/asserting-API call, MIR arithmetic or bounds assert and explicit panic that "
                    "the 11 queries can reach and demands a justification for each; the salsa query graph is rebuilt from the generated "
                    "QueryFunction::execute bodies and checked for cycles without recovery (a cycle panics in every query touching it). "
-                   "The check rejects what it cannot justify; the reviewed table keeps today's tree exact.",
+                   "The check rejects what it cannot justify; the reviewed table keeps today's tree exact. Q19 = C14 U12 (engine U). Q6 also: every entry of every per-name list of declarations() reaches the inference groups.",
     "not_decided": "panics inside rowan/salsa beyond the asserting-API table; stack depth on deeply nested input (inherits C02/P5); re-execution of a memoised query with a stale interned id during salsa's dependency validation.",
     "trusted_base": ["the asserting-API table in lib/panics.py", "rustc MIR + callee resolution", "salsa 0.17 cycle recovery semantics",
                      "the reasons in rules/reviewed.json"],
